@@ -38,12 +38,16 @@ Lemma shapes :
                                          CSeq [CLit [35]; CStar (CSeq [CNot (CRef 59); CRef 49])]])
   /\ nth_error rules 55 = Some (CStar (CChoice [CRef 58; CRef 59; CRef 51]))
   /\ nth_error rules 56 = Some (CStar (CChoice [CRef 58; CRef 53]))
-  /\ nth_error rules 58 = Some (CClass [32; 9; 13] [] false)
+  /\ class_rule 58 (fun c => in_chars c [32; 9; 13] || in_ranges c [])
   /\ nth_error rules 59 = Some (CLit [10])
   /\ nth_error rules 60 = Some (CChoice [CSeq [CRef 55; CLit [59]]; CSeq [CRef 56; COpt (CRef 54); CRef 59];
                                          CSeq [CRef 55; CRef 61]])
   /\ nth_error rules 61 = Some (CNot CAny).
-Proof. vm_compute. repeat split; reflexivity. Qed.
+Proof.
+  repeat (split; [vm_compute; reflexivity|]).
+  split; [eexists; eexists; split; [vm_compute; reflexivity | vm_compute; reflexivity]|].
+  repeat (split; [vm_compute; reflexivity|]). vm_compute; reflexivity.
+Qed.
 
 (** rules that begin with a keyword literal (action, literal, rest of the sequence) *)
 Definition keyword_rule (i : nat) (c : Z) (l : list Z) : Prop :=
@@ -183,7 +187,7 @@ Qed.
 Lemma whitespace_matches : matches_char (CRef 58) p_blank 2.
 Proof.
   destruct shapes as (_ & _ & _ & _ & _ & _ & _ & _ & _ & _ & _ & _ & _ & _ & H58 & _).
-  exact (ref_matches 58 _ _ 1 H58 (class_matches [32; 9; 13] [])).
+  exact (class_rule_matches 58 _ H58).
 Qed.
 
 Lemma not_blank : forall d cs, Forall (fun c => d <> c) cs -> incl [32; 9; 13] cs -> p_blank d = false.
